@@ -1272,8 +1272,9 @@ fn render(rng: &mut Rng, toks: &[Tok], l: &Layout) -> Rendered {
         let mut need_newline = false; // a line comment was written: the token must start on a new line
         let mut had_comment = false;
         // comments
+        // CANDIDATE-FINDING C01-5e: a comment between /begin and A2ML makes the tokenizer reject the file: not generated
         let a2ml_tag = t.glue && matches!(&t.tk, Tk::Word(w) if w == "A2ML");
-        let inner_begin = !t.elem && t.tk == Tk::Begin;
+        // C01-5d / C18-F5 (comment in front of a /begin inside IF_DATA): repaired in /repo 182b4fe: generated and checked again
         // inside IF_DATA: from the token behind "/begin IF_DATA" up to and including the "/end" of "/end IF_DATA"
         if i > 1 && toks[i - 2].tk == Tk::Begin && matches!(&toks[i - 1].tk, Tk::Word(w) if w == "IF_DATA") {
             in_ifdata = true;
@@ -1282,7 +1283,7 @@ fn render(rng: &mut Rng, toks: &[Tok], l: &Layout) -> Rendered {
         if t.tk == Tk::End && matches!(toks.get(i + 1).map(|x| &x.tk), Some(Tk::Word(w)) if w == "IF_DATA") {
             in_ifdata = false;
         }
-        if !is_raw && !prev_raw && !a2ml_tag && !inner_begin && !(after_ifdata_tag && !l.comment_after_ifdata) {
+        if !is_raw && !prev_raw && !a2ml_tag && !(after_ifdata_tag && !l.comment_after_ifdata) {
             let n = if t.elem && rng.chance(l.kept_comments) {
                 1 + rng.below(2)
             } else if !t.elem && rng.chance(l.dropped_comments) {
@@ -2245,9 +2246,8 @@ fn vf_driver_c02() {
         lay.multiline_kept = rng.chance(40);
         lay.comment_after_ifdata = true;
         lay.max_blank = 1 + rng.below(4);
-        // CANDIDATE-FINDING C01-4 (also a C02 violation): with position restricted items that are not in ascending order
-        // a sorted item can land behind a kept line comment and is swallowed by it. No kept line comments then.
-        lay.kept_line_comments = !doc.reordered;
+        // C01-4 (reordered RECORD_LAYOUT item swallowed by a kept `//` comment): repaired in /repo 6bcb276: generated and checked again
+        lay.kept_line_comments = true;
         let r = render(&mut rng, &doc.toks, &lay);
         self_check_tokenizer(&doc.toks, &r.text);
         let (exp, merged) = expected_of(&doc, &r);
